@@ -795,6 +795,7 @@ impl EcmaRegexValidator {
     if !self.eat('[') {
       return Ok(false);
     }
+    self.eat('^');
     self.consume_class_ranges()?;
     if !self.eat(']') {
       return Err("Unterminated character class".to_string());
